@@ -14,7 +14,7 @@ TWEAKS = {
             "observe": 1.5, "dump_load": 0.0, "from_mps": 0.2, "ttns_product": 0.2},
     "C11": {},
     "C14": {"normalize": 3.0, "dump_load": 8.0, "evolve": 1.0, "add": 2.0, "scale": 2.0, "unary": 1.5, "canonicalise": 2.0, "compress": 2.0, "observe": 0.5, "from_mps": 1.0, "max_entangled": 0.5},
-    "C08": {"optimize": 9.0, "ttno": 3.0, "ttns_random": 3.0, "compress": 1.5, "add": 1.0, "apply": 0.5, "observe": 0.5, "evolve": 0.5, "dump_load": 0.0, "max_entangled": 0.0},
+    "C08": {"optimize": 5.0, "ttno": 3.0, "ttns_random": 3.0, "compress": 1.5, "add": 1.0, "apply": 0.5, "observe": 0.5, "evolve": 0.5, "dump_load": 0.0, "max_entangled": 0.0},
     "C05": {"compress": 8.0, "add": 3.0, "apply": 3.0, "observe": 0.5, "evolve": 1.5, "ttns_random": 3.0},
     "C06": {"evolve": 3.0, "add": 3.0, "apply": 3.0, "compress": 2.0, "canonicalise": 2.0, "observe": 0.5, "max_entangled": 0.6},
     "C13": {"expand": 2.0, "evolve": 4.0, "observe": 5.0, "drop": 1.0, "scale": 3.0, "unary": 3.5, "compress": 2.0, "canonicalise": 2.0, "dump_load": 0.6},
@@ -45,6 +45,8 @@ class TreeProfile(session.Profile):
         return h
 
     def nsteps(self, rnd, tier):
+        if self.pid == "C08":
+            return rnd.randint(6, 14)      # every tree sweep re-plans its contractions (seconds per call): short sessions
         return rnd.randint(8, 30)
 
     def weights(self, header):
